@@ -4,7 +4,7 @@ import genb
 from vlib import xhex, rnd_u64, U64
 from props.codec_common import CODEC_TRUSTED
 
-THEOREMS = ["C06_decode_total", "C06_receive_path_total", "C06_depth_bounded", "C06_length_claims_checked", "C06_decoded_shape"]
+THEOREMS = ["C06_admin_record_total", "C06_decode_total", "C06_receive_path_total", "C06_depth_bounded", "C06_length_claims_checked", "C06_decoded_shape"]
 RELEASE = True
 OFFSET = 946684800000
 RULE = ("DEC on every byte string of length <= 2 (exhaustive) and a seeded sample of length 3 (thorough: all 16.8M of length <= 3); OPS "
@@ -62,6 +62,32 @@ def _definite_outer(buf, nblocks):
     return [genb.head(4, n) + body for n in (nblocks, nblocks + 1, max(0, nblocks - 1), 23, 24, 2 ** 16, 2 ** 20, 2 ** 32, 2 ** 63, U64 - 1)]
 
 
+ADM_FIXED = ["8201848181f500820100820000", "82018481 9ff5ff 00 820100 820000", "82019f 819ff5ff 00 820100 820000 ff", "9f01848181f500820100820000ff",
+             "82018481 9ff51903e8ff 00 820100 820000", "82018481 9ff5ff 00 820100 9f0000ff", "8201 8681f4 00 820100 820000 0507", "82018481 9fff 00 820100 820000",
+             "820240", "82025f4101ff", "8218ff9f0102ff", "82019f9f9ff5ffffff", "8201", "81", "", "f6", "820184 9f81f581f4ff 00 8201621234 820000"]
+
+
+def _admin_cases(rng, n):
+    from props import c12
+    out = []
+    bodies = [bytes.fromhex(h.replace(" ", "")) for h in ADM_FIXED]
+    for _ in range(n):
+        body = c12.ref_record(c12.rnd_record(rng))
+        r = rng.random()
+        if r < 0.5:
+            for _ in range(rng.choice([1, 1, 2])):
+                body = genb.mutate(rng, body)
+        elif r < 0.7 and len(body) > 3:
+            body = body[:rng.randrange(1, len(body))]
+        bodies.append(body)
+    for body in bodies:
+        b = genb.rnd_bundle(rng, nblocks=rng.choice([0, 0, 1]), crc_kind=rng.randrange(3), fragment=False)
+        b["p"]["flags"] = (b["p"]["flags"] | 0x2) & ~0x5c000 & 0xFFFFFFFFFFFFFFFF
+        b["cs"][-1]["data"] = ("DATA", body)
+        out.append(_rx(rng, genb.ref_bundle(b)[0], OFFSET + 5000))
+    return out
+
+
 def corpus():
     import vlib
     rng = vlib.Rng(606)
@@ -76,6 +102,9 @@ def corpus():
         out.append("DEC " + xhex(buf))
         for clock in (OFFSET + 5000, U64 - 1):
             out.append(_rx(rng, buf, clock))
+    # administrative-record bundles: the receiver decodes the payload as a record (Q prints REC OK / ERR): valid records, records with
+    # indefinite-length arrays at every level (no size hint for the visitors), truncated and mutated records
+    out += _admin_cases(rng, 40)
     # wire CRC-16 of exactly 0x0000 (correct!): must be decoded as a value, not as the never-calculated placeholder
     for b in genb.zero_crc_bundles()[:14]:
         out.append("DEC " + xhex(genb.ref_bundle(b)[0]))
@@ -115,6 +144,7 @@ def cases(rng, tier):
         nb = rng.randrange(0, 4)
         b = genb.rnd_bundle(rng, nblocks=nb)
         out.append(rng.choice(["DEC ", "DECA "]) + xhex(rng.choice(_definite_outer(genb.ref_bundle(b)[0], nb + 2))))
+    out += _admin_cases(rng, 300 if tier == "quick" else 30000)
     for _ in range(nm):
         buf = rng.choice(seeds)
         for _ in range(rng.choice([1, 1, 1, 2, 3])):
